@@ -211,6 +211,37 @@ func runC06(c *Ctx) {
 		// a consistent request of the other client presented with this client's key
 		run("request:other-client", other.request, other.blind, cl.pubEnc, false)
 		run("request:other-client-own-key", other.request, other.blind, other.pubEnc, true)
+		// one attester, and the client key handed over in a buffer its owner refills for the next client
+		{
+			att := type3.NewRateLimitedAttester(newMemCache())
+			cacheView := func() int { return 0 }
+			_ = cacheView
+			out := c.Op("c03.probe c06.reused-key-buffer "+hx(cl.pubEnc)+" "+hx(other.pubEnc), func() string {
+				mc := newMemCache()
+				att = type3.NewRateLimitedAttester(mc)
+				buf := append([]byte{}, cl.pubEnc...)
+				if att.VerifyRequest(req, cl.blind, buf, []byte("anon")) != nil {
+					return "honest request refused"
+				}
+				copy(buf, other.pubEnc)
+				if att.VerifyRequest(req, cl.blind, buf, []byte("anon")) == nil {
+					return "a request was accepted for a client key it was not blinded from (the key buffer had held the right key before)"
+				}
+				if _, ok := mc.m[hex.EncodeToString(other.pubEnc)]; ok {
+					return "a rejected request registered client state"
+				}
+				// and the other way round: the buffer first held another client's key
+				copy(buf, other.pubEnc)
+				att.VerifyRequest(other.request, other.blind, buf, []byte("anon"))
+				copy(buf, cl.pubEnc)
+				if att.VerifyRequest(req, cl.blind, buf, []byte("anon")) != nil {
+					return "honest request refused after the key buffer had held another key"
+				}
+				return "-"
+			})
+			c.Count("reused-key-buffer")
+			c.Direct(out == "-", "attester and a reused client-key buffer: "+out, map[string]any{"client": hx(cl.pubEnc), "other": hx(other.pubEnc)})
+		}
 		// malformed keys and signatures
 		bad := append([]byte{}, req.RequestKey...)
 		bad[0] = 0x04
